@@ -1,5 +1,5 @@
 """Per-property configuration and the generic check flow."""
-import json, os, shutil, subprocess, sys, time
+import json, os, re, shutil, subprocess, sys, time
 import runner
 from runner import ROOT, LEAN, HARNESS, WORK, InfraError
 
@@ -445,13 +445,15 @@ class C13(Proto):
             "send pause 0 / 5 s / 20 s, retain 0(=32),1,2,5,31,32,33,64. Trace compared exactly; monitors: gap between "
             "transmissions >= pause, silence after busy, exact resend, deliveries, every Send returns.")
     technique = "Lean 4 proof (lock-held-until invariant of the router transition system: no transmission before the scheduled release, over all labels) + exact trace correspondence under testing/synctest"
-    level_text = ("Theorems over the router transition system, every label: every transmission happens under the lock; a successful "
-                  "one keeps it for the whole post-send pause, a busy indication for min(announced+random, 50 ms); while it is "
-                  "held no label before the release time - any number of pending Sends - makes a routing indication leave the "
-                  "client, and the release stays scheduled (pacing and back-off); at the release the first waiter proceeds, a waiting "
-                  "Send transmits and returns; the lock is never held without a scheduled release (no deadlock).")
-    partial = ("'at most one further transmission per goroutine already inside Send' is FIFO hand-off of sync.Mutex (the model's "
-               "waiter queue embodies it); liveness under the real scheduler and contended behaviour are exercised in real time only")
+    level_text = ("Theorems over the router transition system.  Per label: every transmission happens under the lock; a "
+                  "successful one keeps it for the whole post-send pause, a busy indication for min(announced+random, 50 ms); "
+                  "while it is held no label before the release time makes a routing indication leave the client.  Over WHOLE "
+                  "EXECUTIONS (any label sequence whose times never go back - any number of pending Sends, busy / lost "
+                  "indications, reads, timer expiries): once the lock is held until u nothing is transmitted before u "
+                  "(no_tx_before_release); hence after a transmission at t nothing before t + pause (pacing_global) and after "
+                  "a busy indication granted at t nothing before t + wait (backoff_global); at the release the first waiter "
+                  "proceeds, a waiting Send transmits and returns.  Tie: virtual-time traces equal to the model's; contended "
+                  "schedules in real time (stream C13rt) with the property as monitor.")
 
 
 class C14(Proto):
@@ -606,6 +608,15 @@ def run_stream(P, tier, seed, budget, workdir, binary, drv, flag):
         raise InfraError("harness timed out: " + " ".join(cmd))
     sp = os.path.join(workdir, "stats.json")
     if rc != 0 or not os.path.exists(sp):
+        # a panic inside one of the library's own goroutines (a socket receiver) cannot be recovered by the
+        # harness: the process dies.  The harness recorded the operation it was running.
+        crash = re.search(r"^(panic: .*|fatal error: .*)$", out, re.M)
+        infl = os.path.join(workdir, "inflight.txt")
+        if crash and os.path.exists(infl):
+            where = [l.strip() for l in out.splitlines() if "/knx-go/knx" in l or "/repo/knx" in l][:4]
+            return dict(ops=0, distinct=0, classes={"process-crash": 1}, generated={}, samples=[],
+                        findings=[dict(property=P.id, kind="process-crash", op=open(infl).read(),
+                                       detail="the library brought the process down: %s %s" % (crash.group(1), " | ".join(where)))]), [], 0
         raise InfraError("harness failed (rc=%s): %s\n%s" % (rc, " ".join(cmd), out[-3000:]))
     stats = json.load(open(sp))
     if drv is None:
